@@ -200,13 +200,25 @@ def check_c11(pid, tier, seed, replay=None):
     for s_ in scns: s_.prelude = prelude(use)
     res = run_batch(pid, scns, bindir, 'pdh', *TRACE, prelude=prelude(use))
     res['infra'] += pr['infra']
+    # context for the known finding: a damaged packet that still parses may claim the other block size; if no granule position has been
+    # seen yet, the decoder's sample count is off by the difference and the FIRST packet that carries a granule position is begin-trimmed
+    for v in res['viols']:
+        evs = res['scn_events'].get(v.get('scn'), []); d = None; g = None; seen_gp = False
+        for e in evs:
+            if e.get('e') not in ('Synthesis', 'TrackOnly') or e.get('rs') != 0: continue
+            if d is None:
+                if e.get('mut') == 1 and e.get('W') != e.get('cW') and not seen_gp: d = e['k']
+                elif e.get('gp', -1) >= 0: seen_gp = True
+            elif g is None and e.get('gp', -1) >= 0: g = e['k']
+        v['wrongW_before_first_gp'] = (d is not None and g is not None and v.get('event', {}).get('k') == g)
     def nontrivial(s, evs):   # at least one chunk after the disturbance was compared with the clean decode and had to be identical
         return sum(1 for e in evs if e.get('e') == 'PcmOut' and e.get('n', 0) > 0 and e.get('cmp') in (0, 1, 2)) >= 2
     ncmp = sum(1 for s in scns for e in res['scn_events'].get(s.name, []) if e.get('e') == 'PcmOut' and e.get('n', 0) > 0)
     return finish(pid, tier, seed, 'model_checking', scns, res, C11_RULES, t0,
                   'scenarios = real streams (1/2/6 channels, VBR and managed, impulse-rich) decoded through the packet API with one disturbance at packet d (drop one or two packets, duplicate, truncate, flip one / several bits, zero the tail, feed a header as audio, restart, track-only block) for several granule-position layouts and half rate; TLC decides for every delivered chunk whether it is the overlap of two undamaged neighbours and then requires bit-identity with the undisturbed decode wherever both exist; non-trivial = at least two chunks compared; distinct by script hash',
                   nontrivial, ['"undisturbed decode" is the packet-level decode of the same stream by the same build', 'TLC, libogg, ASan build of the current tree'],
-                  CHECKER, extra_cov=dict(design_model=mc, chunks_compared=ncmp), sample_keys={'e', 'k', 'mut', 'rs', 'rb', 'n', 'cn', 'cmp', 'W', 'gp', 'eos', 'avail'})
+                  CHECKER, extra_cov=dict(design_model=mc, chunks_compared=ncmp), preds={'wrong_blocksize_before_first_granule': lambda v, scn: bool(v.get('wrongW_before_first_gp'))},
+                  sample_keys={'e', 'k', 'mut', 'rs', 'rb', 'n', 'cn', 'cmp', 'W', 'gp', 'eos', 'avail'})
 
 def check_c02(pid, tier, seed, replay=None):
     if replay: return _replay(pid, replay, 'pdh', *TRACE)
